@@ -282,6 +282,7 @@ PROPS = {
             {"name": "c18.histories", "pkg": ROUTING, "test": "TestVerifC18Histories", "shards_t": 16, "shards_q": 6, "crash_is_violation": True},
             {"name": "c18.directed", "pkg": ROUTING, "test": "TestVerifC18Directed", "shards_t": 4, "shards_q": 4, "crash_is_violation": True},
             {"name": "c18.real-tcpcl", "pkg": ROUTING, "test": "TestVerifC18RealTCPCL", "shards_t": 8, "shards_q": 4, "crash_is_violation": True},
+            {"name": "c18.fresh-process", "pkg": ROUTING, "test": "TestVerifC18FreshProcess", "shards_t": 4, "shards_q": 4, "crash_is_violation": True},
         ],
     },
     "C19": {
@@ -295,6 +296,7 @@ PROPS = {
             {"name": "c19.forwarding", "pkg": ROUTING, "test": "TestVerifC19Forwarding", "shards_t": 16, "shards_q": 4, "crash_is_violation": True},
             {"name": "c19.aliasing", "pkg": ROUTING, "test": "TestVerifC19Aliasing", "shards_t": 4, "crash_is_violation": True},
             {"name": "c19.stress", "pkg": ROUTING, "test": "TestVerifC19Stress", "crash_is_violation": True},
+            {"name": "c19.fresh-process", "pkg": ROUTING, "test": "TestVerifC19FreshProcess", "shards_t": 4, "shards_q": 4, "crash_is_violation": True},
         ],
     },
     "C20": {
@@ -305,6 +307,7 @@ PROPS = {
         "assumptions": ["several correct next hops may exist: a validity predicate is checked, not one expected answer"],
         "units": [
             {"name": "c20.graphs", "pkg": ROUTING, "test": "TestVerifC20Graphs", "shards_t": 16, "shards_q": 6, "crash_is_violation": True},
+            {"name": "c20.fresh-process", "pkg": ROUTING, "test": "TestVerifC20FreshProcess", "shards_t": 4, "shards_q": 4, "crash_is_violation": True},
         ],
     },
 }
